@@ -21,7 +21,7 @@ ListedCalls == {"start_client", "start_server", "connect", "auth_none", "auth_pa
 Internal(x, present) == present /\ ~Allowed(x.mro)
 ApiInternal   == Internal(R.api, R.api.raised)
 SavedInternal == Internal(R.saved, R.saved.present)
-Predicted == IF InModel(R.role, K) THEN RawClass(R.role, R.stage, R.msg, R.idx, R.class) ELSE "-"
+Predicted == IF InModel(R.role, K) THEN RawClass(R.role, R.stage, R.method, R.msg, R.idx, R.class) ELSE "-"
 
 TInit == tid \in 1..Len(Batch) /\ l = 1 /\ bad = {} /\ Init
 TNext == /\ l = 1 /\ l' = 2 /\ tid' = tid
